@@ -521,27 +521,43 @@ func contentBytesFixed(c string) string {
 func strUtf8Case(c *strCase, res *strRes, r *rand.Rand, lead, trail string, e map[string]interface{}) {
 	var b []byte
 	b = append(b, lead...)
-	var concrete []byte
-	for _, cl := range c.S {
-		concrete = append(concrete, utf8ClassByte(cl, r))
+	// scale: the class sequence repeated with an ASCII separator between the copies (every copy then stands on its own: the
+	// separator ends any pending sequence exactly as the end of the input does), so that the number of invalid bytes passes the
+	// 4096 entries of the position table several times
+	reps := 1
+	if strReps > 1 && len(c.S) > 0 {
+		reps = []int{2, 9, 70}[r.Intn(3)]
+		if r.Intn(40) == 0 {
+			reps = []int{700, 4200, 9000}[r.Intn(3)] // (one case in forty: these are long)
+		}
 	}
-	b = append(b, concrete...)
-	b = append(b, trail...)
-	b = placeInput(b, len(c.S))
 	wantValid := e["valid"].(bool)
-	// expected correction, from the specification's class output
 	var want []byte
 	want = append(want, lead...)
-	ci := 0
-	for _, o := range e["fixed"].([]interface{}) {
-		if o.(string) == "FFFD" {
-			want = append(want, "�"...)
-			ci++ // one input byte replaced
-			continue
+	for rep := 0; rep < reps; rep++ {
+		var concrete []byte
+		for _, cl := range c.S {
+			concrete = append(concrete, utf8ClassByte(cl, r))
 		}
-		want = append(want, concrete[ci])
-		ci++
+		b = append(b, concrete...)
+		// expected correction, from the specification's class output
+		ci := 0
+		for _, o := range e["fixed"].([]interface{}) {
+			if o.(string) == "FFFD" {
+				want = append(want, "�"...)
+				ci++ // one input byte replaced
+				continue
+			}
+			want = append(want, concrete[ci])
+			ci++
+		}
+		if rep+1 < reps {
+			b = append(b, '~')
+			want = append(want, '~')
+		}
 	}
+	b = append(b, trail...)
+	b = placeInput(b, len(c.S))
 	want = append(want, trail...)
 	// reference oracles
 	if stdutf8.Valid(b) != wantValid || !bytes.Equal(correctStd(b), want) {
